@@ -178,6 +178,9 @@ def gen_hostile(rng, i):
         a = {"name": "MGDA", "epsilon": [0.0, 1e-3][int(rng.integers(2))], "max_iters": [1, 5, 20, 100, 500][int(rng.integers(5))]}
     else:
         a = {"name": "CAGrad", "c": float(np.round(rng.uniform(1.0, 3.0), 2))}
+    if a["name"] == "MGDA" and rng.random() < 0.5:
+        # MGDA has no scale parameter at all: its sub-optimality bound 8 s^2 / (iterations + 2) must hold at every magnitude
+        J = J * 10.0 ** rng.uniform(-8, 8) / max(M.smax(J), 1e-300)
     return {"J": J.tolist(), "dtype": dname, "agg": a, "class": klass}
 
 
